@@ -21,11 +21,13 @@ ASSUMPTIONS = {
 PROPS = {
     "C15": {
         "units": [r"^xml_schema_generator::necessity::", r"^xml_schema_generator::vspec::nec::", r"^xml_schema_generator::vspec::c15::"],
+        "modules": ["necessity", "vspec::nec", "vspec::c15", "vspec::boundary"],
         "assumes": ["A1", "A2", "A9", "M", "U", "V"],
         "claim": "full functional contract of merge_necessity against spec_merge (written from the statement) plus the derived clause lemmas (each distinct item exactly once for duplicate-free inputs, Mandatory iff Mandatory in both, first-list order then second-list-only items in original relative order), for all lists of all lengths",
     },
     "C16": {
         "units": [r"^xml_schema_generator::element::", r"^xml_schema_generator::necessity::(Necessity::|impl)", r"^xml_schema_generator::vspec::tree::", r"^xml_schema_generator::vspec::c16::"],
+        "modules": ["element", "necessity", "vspec::tree", "vspec::c16", "vspec::nec", "vspec::boundary"],
         "assumes": ["A1", "A2", "A3", "A6", "A9", "H", "M", "U", "V"],
         "claim": "tree half: every public construction operation refines a spec operation apply_op on the children list and preserves unique child names (also deeply); theorem_c16_all_sequences: uniqueness holds after EVERY finite sequence of operations; add-existing is a no-op, mark-optional preserves the subtree; lookup/removal contracts are assumed leaves (A6); the rendering sentence of C16 is covered by the bounded stand-in only",
     },
